@@ -128,7 +128,7 @@ def run(chk):
     cases, bad_glob = [], 0
     g0, nglob = U.package_globals_digest(uwg)
     for s in range(nseq):
-        ms = [U.new_model(outdir=work, outname='w%d.epw' % i, nday=1, dtsim=900, bld=STOCK, zone='1A',
+        ms = [U.new_model(outdir=work, outname='w%d.epw' % i, nday=1, dtsim=300, bld=STOCK, zone='1A',
                           sensanth=[10, 30][i]) for i in range(2)]
         trs = [Tracker(uwg, 0), Tracker(uwg, 0)]
         texts, trace = [], []
@@ -167,10 +167,10 @@ def run(chk):
     bad = 0
     nruns = 0
     for c in range(ncfg):
-        cfg = dict(nday=1, dtsim=rng.choice([300, 600, 900]), month=rng.choice([1, 4, 7, 10]),
+        cfg = dict(nday=1, dtsim=rng.choice([300, 150, 200]), month=rng.choice([1, 4, 7, 10]),
                    day=rng.randint(1, 28), sensanth=rng.choice([5, 20, 35]),
                    glzr=rng.choice([None, 0.0, 0.5]))
-        other = dict(nday=1, dtsim=900, month=7, bldheight=30, zone='5A')
+        other = dict(nday=1, dtsim=300, month=7, bldheight=30, zone='5A')
         ref = run_full(cfg, work, 'iso.epw')
         again = run_full(cfg, work, 'iso2.epw')
         # interleaved with a different model in the same interpreter
